@@ -108,6 +108,12 @@ func genesis(r *sim.Rng, nv, nKeys int) *sim.GenesisSpec {
 		// members of one to three committees (slashes are budgeted per committee)
 		g.Validators = append(g.Validators, sim.StdValidator(i, r.Pick(1, 5, 1000, 1000, 250000), [][]uint64{{1}, {1, 2}, {1, 2, 3}}[r.Intn(3)]...))
 	}
+	// one or two delegates from genesis on (slashable through HandleDoubleSigners like any staked key of the committee)
+	for i := nv; i < nv+1+r.Intn(2) && i < nKeys; i++ {
+		d := sim.StdValidator(i, r.Pick(5, 1000, 250000), [][]uint64{{1}, {1, 2}}[r.Intn(2)]...)
+		d.Delegate, d.NetAddress = true, ""
+		g.Validators = append(g.Validators, d)
+	}
 	for i := 0; i < nKeys; i++ {
 		g.Accounts = append(g.Accounts, &fsm.Account{Address: sim.BLSKey(i).Addr, Amount: r.Pick(0, 20000, 3_000_000_000, 5_000_000_000)})
 	}
@@ -118,7 +124,8 @@ func genesis(r *sim.Rng, nv, nKeys int) *sim.GenesisSpec {
 var wSlash *sim.CaseWriter
 var outDirG = "."
 
-// slashCase: the real SlashValidator on a committee member (not a delegate: see DESIGN.md O-7) of the current state, with
+// slashCase: the real SlashValidator on a committee member or delegate (HandleDoubleSigners accepts any staked key whose
+// committees contain the reporting chain, delegates included) of the current state, with
 // percentages around the per-committee cap, 100% and dust stakes; sometimes twice in a row (the per-block tracker then holds
 // the first slash), sometimes for a chain the validator is not a member of
 // ownTracker: the harness's own account of the per-block slash budget (validator -> committee -> percent slashed so far in this
@@ -130,7 +137,7 @@ func slashCase(r *sim.Rng, n *sim.FNode, gen *sim.TxGen) {
 	if r.Chance(30) {
 		vals, _ := n.FSM.GetValidators()
 		for _, v := range vals {
-			if !v.Delegate && len(v.Committees) >= 2 && v.StakedAmount > 100 {
+			if len(v.Committees) >= 2 && v.StakedAmount > 100 {
 				a, b := v.Committees[0], v.Committees[1]
 				for _, step := range []struct{ chain, pct uint64 }{{a, r.Pick(5, 10, 14)}, {b, r.Pick(3, 5, 10)}, {a, r.Pick(5, 10, 20)}} {
 					slashOne(r, n, v.Address, step.chain, step.pct, false)
@@ -147,7 +154,7 @@ func slashOne(r *sim.Rng, n *sim.FNode, addr []byte, fixedChain, fixedPct uint64
 	var cands []*fsm.Validator
 	vals, _ := n.FSM.GetValidators()
 	for _, v := range vals {
-		if !v.Delegate && len(v.Committees) > 0 {
+		if len(v.Committees) > 0 {
 			cands = append(cands, v)
 		}
 	}
